@@ -288,10 +288,12 @@ func foldWithValue(sc *scenario, e ast.Expr, val float64) (bool, bool) {
 						return constant.MakeFloat64(r), true
 					}
 				}
-			case q == dataPkg+".FloatToBool" && len(y.Args) == 1:
+			case len(y.Args) == 1 && sc.c.P.FuncOf(kit.Callee(info, y)) != nil:
+				// a module helper of one parameter whose body is a single return: inline it
 				if a, ok := ev(y.Args[0]); ok {
-					af, _ := constant.Float64Val(a)
-					return constant.MakeBool(af != 0), true
+					if v, ok := inlineSimpleFunc(sc.c.P.FuncOf(kit.Callee(info, y)), a); ok {
+						return v, true
+					}
 				}
 			case len(y.Args) == 1: // conversion like int(p.Value)
 				if tv, ok := info.Types[y.Fun]; ok && tv.IsType() {
@@ -306,4 +308,75 @@ func foldWithValue(sc *scenario, e ast.Expr, val float64) (bool, bool) {
 		return false, false
 	}
 	return constant.BoolVal(v), true
+}
+
+// inlineSimpleFunc evaluates a module function of one parameter whose body is a
+// single `return <expr>` over comparisons/arithmetic of that parameter and
+// constants (data.FloatToBool and friends) at a constant argument.
+func inlineSimpleFunc(fn *kit.Func, arg constant.Value) (constant.Value, bool) {
+	if fn == nil || fn.Body == nil || len(fn.Body.List) != 1 || len(fn.Params()) != 1 {
+		return nil, false
+	}
+	ret, ok := fn.Body.List[0].(*ast.ReturnStmt)
+	if !ok || len(ret.Results) != 1 {
+		return nil, false
+	}
+	info := fn.Info()
+	param := fn.Params()[0]
+	var ev func(x ast.Expr) (constant.Value, bool)
+	ev = func(x ast.Expr) (constant.Value, bool) {
+		x = ast.Unparen(x)
+		if kit.ObjOf(info, x) == types.Object(param) {
+			return arg, true
+		}
+		if tv, ok := info.Types[x]; ok && tv.Value != nil {
+			return tv.Value, true
+		}
+		switch y := x.(type) {
+		case *ast.BinaryExpr:
+			a, ok1 := ev(y.X)
+			b, ok2 := ev(y.Y)
+			if !ok1 || !ok2 {
+				return nil, false
+			}
+			num := func(v constant.Value) bool { return v.Kind() == constant.Int || v.Kind() == constant.Float }
+			switch y.Op {
+			case token.EQL, token.NEQ, token.LSS, token.LEQ, token.GTR, token.GEQ:
+				if num(a) && num(b) {
+					return constant.MakeBool(constant.Compare(a, y.Op, b)), true
+				}
+			case token.ADD, token.SUB, token.MUL:
+				if num(a) && num(b) {
+					return constant.BinaryOp(a, y.Op, b), true
+				}
+			case token.LAND, token.LOR:
+				if a.Kind() == constant.Bool && b.Kind() == constant.Bool {
+					if y.Op == token.LAND {
+						return constant.MakeBool(constant.BoolVal(a) && constant.BoolVal(b)), true
+					}
+					return constant.MakeBool(constant.BoolVal(a) || constant.BoolVal(b)), true
+				}
+			}
+		case *ast.UnaryExpr:
+			if y.Op == token.NOT {
+				if a, ok := ev(y.X); ok && a.Kind() == constant.Bool {
+					return constant.MakeBool(!constant.BoolVal(a)), true
+				}
+			}
+		case *ast.CallExpr:
+			if kit.QualName(kit.Callee(info, y)) == "math.Mod" && len(y.Args) == 2 {
+				a, ok1 := ev(y.Args[0])
+				b, ok2 := ev(y.Args[1])
+				if ok1 && ok2 {
+					af, _ := constant.Float64Val(a)
+					bf, _ := constant.Float64Val(b)
+					if bf != 0 {
+						return constant.MakeFloat64(af - bf*float64(int64(af/bf))), true
+					}
+				}
+			}
+		}
+		return nil, false
+	}
+	return ev(ret.Results[0])
 }
